@@ -1,0 +1,123 @@
+//go:build verif
+
+package influxql
+
+// Verification hooks (build tag "verif"): bookkeeping that lets an external
+// harness observe the two 3-slot pushback rings of the scanner without relying
+// on the positions the scanner reports.
+
+// verifReaderState is embedded in reader.
+type verifReaderState struct {
+	verifFetched  int     // runes obtained from the underlying reader (after CR folding), EOF sentinels excluded
+	verifProduced int     // ring slots ever filled (EOF sentinels included)
+	verifReal     [3]bool // whether each ring slot holds a real rune (not an EOF sentinel)
+	verifMaxN     int     // deepest pushback observed at a read through curr()
+	verifStale    int     // reads of a slot that was overwritten (n >= ring size) or, on replay, never filled
+}
+
+// verifNoteRead is called after a freshly fetched rune (or EOF sentinel) was stored in r.buf[r.i].
+func (r *reader) verifNoteRead(real bool) {
+	r.verifProduced++
+	r.verifReal[r.i] = real
+	if real {
+		r.verifFetched++
+	}
+}
+
+// verifReplay is called when read() serves a pushed-back rune (after r.n--).
+func (r *reader) verifReplay() {
+	if r.n >= r.verifProduced {
+		r.verifStale++
+	}
+}
+
+// verifCurr is called at the top of curr().
+func (r *reader) verifCurr() {
+	if r.n > r.verifMaxN {
+		r.verifMaxN = r.n
+	}
+	if r.n >= len(r.buf) {
+		r.verifStale++
+	}
+}
+
+// verifConsumed returns the number of real runes consumed net of pushback.
+func (r *reader) verifConsumed() int {
+	c := r.verifFetched
+	for k := 0; k < r.n && k < len(r.buf); k++ {
+		if r.verifReal[(r.i-k+len(r.buf))%len(r.buf)] {
+			c--
+		}
+	}
+	return c
+}
+
+// verifScanState is embedded in bufScanner.
+type verifScanState struct {
+	verifSteps    int // calls of scanFunc
+	verifBudget   int // when > 0, scanFunc panics with VerifBudgetExceeded after this many calls
+	verifProduced int // ring slots ever filled
+	verifMaxN     int // deepest pushback observed at a read through curr()
+	verifStale    int // reads of a slot that was never filled or already overwritten
+}
+
+// VerifBudgetExceeded is the panic value raised when the scan budget set with
+// VerifSetBudget is exhausted.
+type VerifBudgetExceeded struct{ Steps int }
+
+// verifStep is called at the top of scanFunc.
+func (s *bufScanner) verifStep() {
+	s.verifSteps++
+	if s.n == 0 {
+		s.verifProduced++
+	}
+	if s.verifBudget > 0 && s.verifSteps > s.verifBudget {
+		panic(VerifBudgetExceeded{Steps: s.verifSteps})
+	}
+}
+
+// verifCurr is called at the top of curr().
+func (s *bufScanner) verifCurr() {
+	if s.n > s.verifMaxN {
+		s.verifMaxN = s.n
+	}
+	if s.n >= len(s.buf) || s.n >= s.verifProduced {
+		s.verifStale++
+	}
+}
+
+// VerifStats reports what the hooks observed.
+type VerifStats struct {
+	ScanSteps       int // scanFunc calls (token reads including replays of pushed-back tokens)
+	TokenMaxPush    int // deepest token pushback at a read
+	TokenStale      int // token reads of unfilled / overwritten ring slots
+	RuneMaxPush     int // deepest rune pushback at a read
+	RuneStale       int // rune reads of unfilled / overwritten ring slots
+	RunesConsumed   int // real runes consumed net of rune pushback
+	RunesFetched    int // real runes fetched from the underlying reader
+	TokensPushedNow int // tokens currently pushed back
+}
+
+// VerifStats returns the hook counters of the parser's scanner stack.
+func (p *Parser) VerifStats() VerifStats {
+	r := p.s.s.r
+	return VerifStats{
+		ScanSteps:       p.s.verifSteps,
+		TokenMaxPush:    p.s.verifMaxN,
+		TokenStale:      p.s.verifStale,
+		RuneMaxPush:     r.verifMaxN,
+		RuneStale:       r.verifStale,
+		RunesConsumed:   r.verifConsumed(),
+		RunesFetched:    r.verifFetched,
+		TokensPushedNow: p.s.n,
+	}
+}
+
+// VerifSetBudget bounds the number of token reads the parser may perform.
+func (p *Parser) VerifSetBudget(n int) { p.s.verifBudget = n }
+
+// VerifConsumed returns the number of real runes the scanner has consumed net of pushback.
+func (s *Scanner) VerifConsumed() int { return s.r.verifConsumed() }
+
+// VerifRuneStats returns (max rune pushback depth at a read, stale rune reads).
+func (s *Scanner) VerifRuneStats() (int, int) { return s.r.verifMaxN, s.r.verifStale }
